@@ -11,6 +11,7 @@ mod osc;
 mod probe;
 mod ringbuf;
 mod rms;
+mod sinc;
 mod tree;
 
 use simcore::Scenario;
@@ -31,6 +32,7 @@ fn main() {
         &rms::RmsScenario,
         &alloc::AllocScenario,
         &osc::OscScenario,
+        &sinc::SincScenario,
     ];
     simcore::cli::main(&scens)
 }
